@@ -268,14 +268,14 @@ GATE_TEXT = {
            "reach a reducing decoder. NOT decided: that the equation/hash prefix computed is the right one, signing determinism.",
     "C08": "Gate clause of C08: ECDSA verify_hash depends on even length, zero surplus bytes in BOTH halves, strict decoding and "
            "non-zero test of r and of s, R not at infinity, final comparison; PrivateKey/PublicKey::decode range gates; G15 sign_hash, "
-           "verify_hash and verify_trunc_hash of one curve place the hash bytes into the scalar buffer identically. NOT "
+           "verify_hash and verify_trunc_hash take the leftmost bytes of the hash and place them right-aligned in the scalar buffer. NOT "
            "decided: nonce derivation, the arithmetic of the equation.",
     "C09": "Gate clause of C09: verify depends on len == 48 (equality test), canonical s from sig[16..48], challenge comparison "
            "with sig[0..16]; ECDH status depends on peer decoding and the neutral test; key decoders' gates. NOT decided: "
            "challenge computation, ECDH key agreement arithmetic.",
     "C13": "Two clauses of C13: the UX_COMP / B227 tables (exhaustive) and the soundness gates of truncated verification "
            "(length, strict r/R decoding, non-zero r, Some(..) only under the point-equality check of the reconstructed "
-           "signature; r never reduced); G15 the truncated verifier converts the hash like sign_hash / verify_hash. NOT decided: "
+           "signature; r never reduced); G15 the truncated verifier takes the leftmost hash bytes, right-aligned, like sign_hash / verify_hash. NOT decided: "
            "completeness of the search.",
     "C15": "Structural clauses of C15: reachable-panic discipline of every public FROST function (totality rules, including the "
            "caller-establishes rule for the ordering assert) and the rejection gates of all decoders, decode_list, sign, share "
@@ -362,9 +362,9 @@ ENGINES["ordering"] = eng_ordering
 def eng_hashconv(f, sub, prop):
     from . import hashconv
     n = hashconv.run_hashconv(f, sub, prop)
-    if n < 2:      # p256 (three siblings) and secp256k1 (two) on the reviewed tree
+    if n < 4:      # p256 (three functions) and secp256k1 (two) on the reviewed tree
         sub.oblige(ok=False)
-        sub.add(Finding("G15", "anchor", "gates G15: only %d ECDSA module(s) with two or more described hash conversions (floor 2)" % n,
+        sub.add(Finding("G15", "anchor", "gates G15: only %d ECDSA function(s) with a described hash conversion (floor 4 of 5)" % n,
                         config=f.config, prop=prop))
 
 
